@@ -28,6 +28,7 @@ type Case struct {
 	ADim      int          `json:",omitempty"`
 	AStep     int          `json:",omitempty"`
 	AN        int          `json:",omitempty"`
+	InPlace   bool         `json:",omitempty"` // scale / addTo / applyFunc with the destination itself as source (a := a*k)
 	NoPoke    bool         `json:",omitempty"` // skip the write through Unroll() (lock-step comparisons: C views unroll to copies by design)
 	Guard     int          `json:",omitempty"` // guard-page placement for C roots (see arr.NewRoot)
 }
@@ -83,6 +84,9 @@ func Gen(t *rapid.T) Case {
 	case "none":
 	default:
 		c.W = vg.Draw(t, shape, maxExt, "W")
+		if c.Op != "copyFrom" {
+			c.InPlace = rapid.IntRange(0, 4).Draw(t, "inPlace") == 0
+		}
 	}
 	return c
 }
@@ -376,6 +380,12 @@ func Exec(c Case, trace *[]string) (r pbt.Result) {
 	if !c.VIsDest {
 		dstC = c.WC
 	}
+	if c.InPlace {
+		// one view is both operands: element by element, row-major, each element is read and then written
+		dstM, srcM, dstR, srcR, dstC = mv, mv, rv, rv, c.C
+		r.Label(c.Op + ":in-place")
+		r.NonTrivial = true
+	}
 	r.Label(fmt.Sprintf("%s:dst-%s/src-%s", c.Op, contigClass(dstM), contigClass(srcM)))
 	if dstC {
 		r.Label(c.Op + ":dst-c-backed")
@@ -430,7 +440,7 @@ func Exec(c Case, trace *[]string) (r pbt.Result) {
 		r.Failf("%s: destination element %d = %v, element-wise definition gives %v", what, i, dstR.Unroll()[i], dstM.Values()[i])
 		return
 	}
-	if i := eq(srcR.Unroll(), srcBefore); i != -1 {
+	if i := eq(srcR.Unroll(), srcBefore); i != -1 && !c.InPlace {
 		r.Failf("%s: source element %d changed", what, i)
 		return
 	}
